@@ -26,6 +26,13 @@ GATES = {"internal/dmap/eviction.go": ["-skip", "evictKeys"],
                                    "-point", "unlockKey", "deleteLockKey", "unlock.checked",
                                    "-point", "leaseKey", "Expire", "lease.checked",
                                    "-point", "leaseKey", "expireLockKey", "lease.checked"],
+         "internal/dmap/get.go": ["-point", "getOnCluster", "lookupOnReplicas", "get.owner-read",
+                                  "-point", "getOnCluster", "readRepair", "get.before-repair"],
+         "internal/dmap/put.go": ["-point", "putOnCluster", "Lock", "put.loaded",
+                                  "-point", "syncPutOnCluster", "putEntryOnFragment", "put.replicated"],
+         "internal/dmap/fragment.go": ["-point", "loadOrCreateLockedFragment", "Lock", "put.loaded"],
+         "internal/dmap/delete.go": ["-point", "deleteKey", "Lock", "del.loaded",
+                                     "-point", "deleteOnCluster", "Delete", "del.others-deleted"],
          "internal/dmap/atomic.go": ["-point", "atomicIncrDecr", "put", "atomic.read",
                                      "-point", "getPut", "put", "atomic.read",
                                      "-point", "atomicIncrByFloat", "put", "atomic.read"]}
